@@ -148,11 +148,59 @@ def ref_decode(tag, raw, stream, verdicts):
     return evs, n - pos, 0, None
 
 
+EX_MIN = 10   # codec.h: kMinMessageLen = 2*kHeaderLen + 2 (nameLen, a one-character name with its NUL, checksum)
+
+
+def ex_prefix(tn):
+    """what stands between the length field and the payload in the example codec's frame: nameLen, typeName, NUL"""
+    return struct.pack(">i", len(tn) + 1) + tn + b"\x00"
+
+
+def ref_frame_ex(tn, payload):
+    """the frame format of examples/protobuf/codec/codec.h, written from its comment: the example codec's frame is the
+    Lite frame whose `tag` is nameLen + typeName + NUL"""
+    return ref_frame(ex_prefix(tn), payload)
+
+
+def ref_decode_ex(stream, known, verdicts):
+    """reference decoder of the example codec. returns (events, left, dead, problem)"""
+    evs, pos, n = [], 0, len(stream)
+    while n - pos >= EX_MIN + 4:
+        (ln,) = struct.unpack(">i", stream[pos:pos + 4])
+        if ln > KMAX or ln < EX_MIN:
+            return evs + ["err InvalidLength"], n - pos, 1, None
+        if n - pos < 4 + ln:
+            break
+        body = stream[pos + 4:pos + 4 + ln]
+        if struct.unpack(">I", body[-4:])[0] != adler(body[:-4]):
+            return evs + ["err CheckSumError"], n - pos, 1, None
+        (nl,) = struct.unpack(">i", body[:4])
+        if not (2 <= nl <= ln - 8):
+            return evs + ["err InvalidNameLen"], n - pos, 1, None
+        tn, payload = body[4:4 + nl - 1], body[4 + nl:-4]
+        k = (fnv64(tn), len(tn))
+        if k not in known:
+            return evs, n - pos, 0, "the driver never asked protobuf about the type name %r" % tn[:40]
+        if not known[k]:
+            return evs + ["err UnknownMessageType"], n - pos, 1, None
+        key = tn + b"\x00" + payload
+        k = (fnv64(key), len(key))
+        if k not in verdicts:
+            return evs, n - pos, 0, "the driver never handed payload %s to protobuf" % payload[:24].hex()
+        if not verdicts[k]:
+            return evs + ["err ParseError"], n - pos, 1, None
+        evs.append("msg %s %d %d" % (tn.hex(), len(payload), fnv64(payload)))
+        pos += 4 + ln
+    return evs, n - pos, 0, None
+
+
 class CodecCfg:
     def __init__(self, kind, tag=b"RPC0", raw=0):
         self.kind, self.tag, self.raw = kind, tag, raw
 
     def new_line(self):
+        if self.kind == "ex":
+            return "new ex"
         return "new rpc %d" % self.raw if self.kind == "rpc" else "new lite %s %d" % (hx(self.tag), self.raw)
 
     @staticmethod
@@ -175,6 +223,7 @@ class CodecSide:
         ops = [l for l in lines if l.strip()]
         cfg = None
         verdicts = {}
+        known = {}           # example codec: type names protobuf's registry was asked about
         groups = []          # per delivery group: [bytes fed, events, last st]
         encoded = []         # (fields string, payload, frame)
         cur = None
@@ -195,9 +244,12 @@ class CodecSide:
                     if verdicts.get(key, v == "1") != (v == "1"):
                         fails.append(("codec-verdict", "step %d: protobuf changed its verdict on one payload" % i))
                     verdicts[key] = v == "1"
+                elif l.startswith("< known "):
+                    _, _, h, n, v = l.split()
+                    known[(int(h), int(n))] = v == "1"
             if w[0] == "new":
                 cfg = CodecCfg.of_line(op)
-                verdicts, groups, encoded, cur = {}, [], [], None
+                verdicts, known, groups, encoded, cur = {}, {}, [], [], None
                 want = "ok tag=" + cfg.tag.hex()
                 if cfg.kind != "ex" and obs != [want]:
                     fails.append(("codec-tag", "step %d `%s`: %r, expected %r" % (i, op, obs, want)))
@@ -215,6 +267,21 @@ class CodecSide:
                         i, op[:60], fr.hex()[:80], ref_frame(cfg.tag, pay).hex()[:80])))
                 else:
                     encoded.append((self.fields_of_encode(cfg, w), pay, fr))
+            elif w[0] == "encode":
+                # the example codec: ProtobufCodec::fillEmptyBuffer against the frame format of codec.h
+                pay = next((parse_bytes(l.split()[2]) for l in blk if l.startswith("< payload ")), None)
+                tn = next((parse_bytes(l.split()[2]) for l in blk if l.startswith("< typename ")), None)
+                fr = next((bytes.fromhex(l.split()[1]) if len(l.split()) > 1 else b"" for l in obs if l.startswith("frame")), None)
+                if pay is None or tn is None or fr is None:
+                    fails.append(("codec-encode", "step %d `%s`: no frame" % (i, op[:60])))
+                elif fr != ref_frame_ex(tn, pay):
+                    want = ref_frame_ex(tn, pay)
+                    d = next((j for j in range(min(len(fr), len(want))) if fr[j] != want[j]), min(len(fr), len(want)))
+                    fails.append(("codec-encode", "step %d `%s`: ProtobufCodec::fillEmptyBuffer produced a %d-byte frame that differs from "
+                                  "the frame format's %d bytes from offset %d on (%s.. instead of %s..) for a %d-byte %s" % (
+                                      i, op[:60], len(fr), len(want), d, fr[d:d + 16].hex(), want[d:d + 16].hex(), len(pay), tn.decode("latin1"))))
+                else:
+                    encoded.append(("ser %d %d" % (len(pay), fnv64(pay)), pay, fr))
             elif w[0] in ("feed", "poke"):
                 if cur is None:
                     cur = [b"", [], None, [], i]
@@ -231,7 +298,7 @@ class CodecSide:
                         fails.append(bad)
                 cur[1] += [l for l in obs if not l.startswith(("st ", "kept ", "distinct "))]
                 cur[2] = st[0]
-                cur[3] += [l for l in blk if l.startswith("# fields")]
+                cur[3] += [l for l in blk if l.startswith(("# fields", "# ser"))]
                 if w[0] == "poke":
                     cur[2] = None   # not a delivery: excluded from the comparisons below
             elif w[0] == "bigframe":
@@ -285,6 +352,25 @@ class CodecSide:
                         if k in by_payload and f[len("# fields "):] not in by_payload[k]:
                             fails.append(("codec-roundtrip", "delivery at step %d: decoded `%s`, encoded %r" % (g[4], f, sorted(by_payload[k]))))
                             break
+        if cfg is not None and cfg.kind == "ex":
+            frames = dict(((len(pay), fnv64(pay)), f) for f, pay, fr in encoded)
+            for g in groups:
+                if g[2] is None:
+                    continue
+                evs, left, dead, problem = ref_decode_ex(g[0], known, verdicts)
+                got = (g[1], g[2])
+                if problem or got != (evs, "st left=%d dead=%d" % (left, dead)):
+                    fails.append(("codec-reference", "delivery at step %d (%d bytes): implementation %r, reference decoder %r%s" % (
+                        g[4], len(g[0]), got, (evs, "st left=%d dead=%d" % (left, dead)), " (" + problem + ")" if problem else "")))
+                    break
+                # a message the library encoded decodes to an equal message (its serialisation is the encoded payload)
+                msgs = [e for e in g[1] if e.startswith("msg ")]
+                if len(msgs) == len(g[3]):
+                    for e, f in zip(msgs, g[3]):
+                        k = (int(e.split()[2]), int(e.split()[3]))
+                        if k in frames and f[2:] != frames[k]:
+                            fails.append(("codec-roundtrip", "delivery at step %d: decoded `%s`, encoded `%s`" % (g[4], f, frames[k])))
+                            break
         return fails
 
     @staticmethod
@@ -322,8 +408,27 @@ class CodecSide:
     def configs(self, rng, quick):
         cs = [CodecCfg("rpc", raw=0), CodecCfg("rpc", raw=1), CodecCfg("rpc", raw=2),
               CodecCfg("lite", b"", 0), CodecCfg("lite", b"A", 0), CodecCfg("lite", b"LIST", 2),
-              CodecCfg("lite", bytes([0xff, 0x00]), 1), CodecCfg("lite", b"0123456789ab", 0)]
+              CodecCfg("lite", bytes([0xff, 0x00]), 1), CodecCfg("lite", b"0123456789ab", 0),
+              CodecCfg("ex")]   # the example ProtobufCodec: both directions, as the Lite codecs
         return cs
+
+    # A fresh muduo::net::Buffer has 1024 writable bytes; an encoder that appends more makes it grow (reallocate).  Sizes
+    # of the variable part of a message that put the frame just below, at and above that boundary (whatever the fixed
+    # overhead of the codec and message type: every size from 960 to 1040 occurs), the next powers of two, and large.
+    GROWTH_SIZES = [0, 1, 2, 100, 500] + list(range(960, 1041, 4)) + [1023, 1025, 2040, 2048, 2060, 4096, 8192, 65535, 65536, 70000]
+
+    def boundary_encode_lines(self, rng, cfg, quick):
+        sizes = self.GROWTH_SIZES if not quick else [n for j, n in enumerate(self.GROWTH_SIZES) if j % 2 == 0 or n in (1023, 1025, 4096, 65536)]
+        out = []
+        for n in sizes:
+            blob = "g:%d:%d" % (rng.randrange(1 << 30), n)
+            if cfg.kind == "rpc":
+                out.append("encode 1 %d - - %s - -" % (n, blob))
+            elif cfg.kind == "ex":
+                out.append("encode %s %d %s" % (rng.choice("qa"), n, blob))
+            else:
+                out.append("encode %s -" % blob)
+        return out
 
     def encode_line(self, rng, cfg):
         def text():
@@ -333,8 +438,10 @@ class CodecSide:
             r = rng.random()
             if r < 0.5:
                 n = rng.choice([0, 1, 2, 3, 5, 8, 13])
-            elif r < 0.9:
+            elif r < 0.8:
                 n = rng.choice([31, 64, 100, 126, 127, 128, 129, 255, 256, 300])
+            elif r < 0.9:
+                n = rng.randrange(900, 1101)          # around the first growth of the encoder's Buffer
             elif r < 0.985:
                 n = rng.choice([1000, 4096, 16383, 16384])
             else:
@@ -343,6 +450,13 @@ class CodecSide:
 
         def opt(v):
             return "-" if rng.random() < 0.35 else hx(v)
+        if cfg.kind == "ex":
+            # encode <q|a|e> <id> <text>: muduo.Query / muduo.Answer (text in one / two string fields) / muduo.Empty
+            t = rng.choice("qqaae")
+            ident = rng.choice([0, 1, 127, 128, (1 << 31) - 1, rng.randrange(1 << 31)])
+            if t == "e":
+                return "encode e %s h:" % rng.choice(["-", str(ident)])
+            return "encode %s %d %s" % (t, ident, hx(text()) if rng.random() < 0.3 else "g:%d:%d" % (rng.randrange(1 << 30), len(blob())))
         if cfg.kind == "rpc":
             ident = rng.choice([0, 1, 255, 256, (1 << 63) - 1, 1 << 63, (1 << 64) - 1, rng.randrange(1 << 64)])
             err = "-" if rng.random() < 0.6 else str(rng.randrange(0, 7))
@@ -353,7 +467,7 @@ class CodecSide:
     LEN_ATTACKS = ["neg1", "min32", "zero", "min-1", "min", "min+1", "max", "max+1", "max32", "len-1", "len+1", "random"]
 
     def attack_len(self, rng, cfg, kind, true_len):
-        m = len(cfg.tag) + 4
+        m = EX_MIN if cfg.kind == "ex" else len(cfg.tag) + 4
         v = {"neg1": -1, "min32": -(1 << 31), "zero": 0, "min-1": m - 1, "min": m, "min+1": m + 1, "max": KMAX,
              "max+1": KMAX + 1, "max32": (1 << 31) - 1, "len-1": true_len - 1, "len+1": true_len + 1,
              "random": rng.randrange(-(1 << 31), 1 << 31)}[kind]
@@ -368,6 +482,8 @@ class CodecSide:
         parts = [f[1] for f in frames]
         j = rng.randrange(len(parts))
         pay = frames[j][0]
+        if len(frames[j]) > 2:
+            tag = frames[j][2]
 
         def rebuild(newtag, newpay, ck=None, ln=None):
             body = newtag + newpay
@@ -398,7 +514,13 @@ class CodecSide:
             parts[j] = bytes(f)
         elif cls == "tag-recomputed":
             t = bytearray(tag)
-            if t:
+            if cfg.kind == "ex" and rng.random() < 0.6:
+                # the example codec's "tag" starts with nameLen: adversarial values with a right checksum behind them
+                true = len(t) - 4
+                body = len(t) + len(pay) + 4
+                v = rng.choice([0, 1, 2, true - 1, true + 1, body - 8, body - 7, body, -1, -(1 << 31), (1 << 31) - 1])
+                t[0:4] = struct.pack(">i", v)
+            elif t:
                 t[rng.randrange(len(t))] ^= 1 << rng.randrange(8)
             else:
                 t = bytearray(b"")
@@ -951,10 +1073,14 @@ class Prop:
         ctx.mismatches.append((c, ctx.compare(c, b, mo) or mm))
 
     # ---------------------------------------------------------------- codec campaign
-    def codec_campaign(self, ctx, exe, flavour):
+    def codec_campaign(self, ctx, exe, flavour, light=False):
+        """`light`: only the encoders (sizes around the Buffer growth boundary) and a few streams built from what they
+        produced - what the quick tier runs under the address sanitizer"""
         side, rng = self.codec, ctx.rng
         quick = ctx.quick() and not ctx.search_mode
         count = lambda k, n=1: ctx.count("codec." + k, n)
+        if light:
+            return self.codec_encoders_and_streams(ctx, exe, flavour, quick, count, light=True)
         exh = 11 if quick else 14
         ctx.extra.setdefault("exhaustive_part", {})["codec"] = {
             "every_segmentation_of_streams_up_to_bytes": exh, "two_frame_streams_16_to_17_bytes": not quick}
@@ -988,14 +1114,23 @@ class Prop:
             self.run_scenarios(ctx, side, exe, [(sc, {"class": "frame-body-above-64MiB"})], "codec-limit")
         if self.stop(ctx):
             return
-        # 3. pools of real encodings, then streams built from them
+        self.codec_encoders_and_streams(ctx, exe, flavour, quick, count)
+
+    def codec_encoders_and_streams(self, ctx, exe, flavour, quick, count, light=False):
+        side, rng = self.codec, ctx.rng
+        # 3. pools of real encodings (every codec's encoder, message sizes on both sides of every growth of the encoder's
+        # Buffer), then streams built from them
         cfgs = side.configs(rng, quick)
-        per_cfg = (24 if quick else 60)
+        if light:
+            cfgs = [c for c in cfgs if c.kind == "ex" or (c.kind, c.raw) == ("rpc", 0) or c.tag == b"LIST"]
+        per_cfg = 6 if light else (24 if quick else 60)
         enc = []
         for cfg in cfgs:
-            lines = [cfg.new_line()] + [side.encode_line(rng, cfg) for _ in range(per_cfg)]
+            lines = [cfg.new_line()] + side.boundary_encode_lines(rng, cfg, quick) + [side.encode_line(rng, cfg) for _ in range(per_cfg)]
             if cfg.kind == "rpc":
                 lines.append("encode 1 7 - - - - -")
+            elif cfg.kind == "ex":
+                lines.append("encode e - h:")
             else:
                 lines.append("encode - -")
             enc.append((lines, {"class": "encode"}))
@@ -1011,16 +1146,21 @@ class Prop:
             for blk in impl[pos + 1:pos + len(sc)]:
                 pay = next((parse_bytes(l.split()[2]) for l in blk if l.startswith("< payload ")), None)
                 fr = next((bytes.fromhex(l.split()[1]) if len(l.split()) > 1 else b"" for l in blk if l.startswith("frame")), None)
+                tn = next((parse_bytes(l.split()[2]) for l in blk if l.startswith("< typename ")), None)
                 if pay is not None and fr is not None:
-                    pool.append((pay, fr))
+                    pool.append((pay, fr) if cfg.kind != "ex" else (pay, fr, ex_prefix(tn or b"")))
+                    count("encoded-frame-bytes:" + self.bucket(len(fr)))
             pos += len(sc)
-            pools.append(pool or [(b"", ref_frame(cfg.tag, b""))])
-        nstreams = 260 if quick else 2600
-        if flavour != "dbg":
+            pools.append(pool or ([(b"", ref_frame_ex(b"muduo.Empty", b""), ex_prefix(b"muduo.Empty"))] if cfg.kind == "ex"
+                                  else [(b"", ref_frame(cfg.tag, b""))]))
+        nstreams = 40 if light else (300 if quick else 2800)
+        if flavour != "dbg" and not light:
             nstreams //= 2
+        exi = [j for j, c in enumerate(cfgs) if c.kind == "ex"]
         batch = []
         for i in range(nstreams):
-            ci = rng.randrange(len(cfgs))
+            ci = rng.choice(exi) if exi and rng.random() < 0.15 else rng.randrange(len(cfgs))
+            count("streams:" + cfgs[ci].kind)
             cfg, pool = cfgs[ci], pools[ci]
             cls = rng.choice(side.CLASSES_VALID) if rng.random() < 0.45 else rng.choice(side.CLASSES_BAD)
             stream, marks, ends = side.make_stream(rng, cfg, pool, cls)
@@ -1087,7 +1227,23 @@ class Prop:
 
     def exe_for(self, ctx, engine, flavour):
         if engine == "codec":
-            return ctx.exe("codec_drv", flavour, with_pb=True)
+            # with the example ProtobufCodec: examples/protobuf/codec/codec.cc + protoc output of its query.proto
+            from .. import build
+            from ..common import BUILD, REPO, sh
+            exdir = os.path.join(REPO, "examples", "protobuf", "codec")
+            pgen = os.path.join(BUILD, "gen-example-codec")
+            os.makedirs(pgen, exist_ok=True)
+            proto = os.path.join(exdir, "query.proto")
+            stamp = os.path.join(pgen, "query.stamp")
+            want = open(proto).read()
+            if not os.path.exists(stamp) or open(stamp).read() != want:
+                rc, o, e = sh(["protoc", "--cpp_out=" + pgen, "-I" + exdir, proto])
+                if rc != 0:
+                    raise build.BuildError("protoc query.proto", o + e)
+                with open(stamp, "w") as f:
+                    f.write(want)
+            return ctx.exe("codec_drv", flavour, with_pb=True, extra_srcs=(os.path.join(exdir, "codec.cc"), os.path.join(pgen, "query.pb.cc")),
+                           cxxflags="-DWITH_EXAMPLE_CODEC -Wno-shadow -I" + pgen)
         return ctx.exe("http_drv", flavour)
 
     def correspondence(self, ctx, replay=None):
@@ -1123,6 +1279,11 @@ class Prop:
                 self.http_campaign(ctx, exes["http"], fl)
                 if self.stop(ctx):
                     return
+        if "asan" not in flavours:
+            # quick tier: the encoders of all three codecs (message sizes across the Buffer's growth) and a few streams of
+            # their frames under ASan+UBSan - a write through a stale pointer into the grown buffer is a `crash` replay
+            ctx.extra["flavours"] = flavours + ["asan (encoders + streams of their frames)"]
+            self.codec_campaign(ctx, self.exe_for(ctx, "codec", "asan"), "asan", light=True)
 
 
 PROP = Prop()
